@@ -153,6 +153,11 @@ let show_pentry = function
 let show_perr = function PEUnsupported -> "E:Unsupported" | PEArgs -> "E:Args" | PEUtf8 -> "E:Utf8"
 let slist f l = String.concat ";" (List.map f l)
 
+(* ---- pkgpath / depend / scanindex ---- *)
+let show_comp = function CRoot -> "R" | CCur -> "C" | CParent -> "P" | CNormal s -> "N:" ^ arg_of_str s
+let show_comps p = String.concat "," (List.map show_comp (pcomps p))
+let show_pp (p : pkgpath) = show_comps p.pp_short ^ "|" ^ show_comps p.pp_full
+
 let run (op : string) (args : string list) : string =
   match op, args with
   | "dewey.new", [p] ->
@@ -262,6 +267,27 @@ let run (op : string) (args : string list) : string =
            ^ "|pkgrmdirs=" ^ slist arg_of_str (pkgrmdirs l) ^ "|pkgname=" ^ opt_sb (pl_pkgname l)
            ^ "|display=" ^ opt_sb (pl_display l) ^ "|preserve=" ^ bool_obs (is_preserve l)
        | Fail e -> show_perr e | Panic _ -> "PANIC" | OutOfFuel -> "FUEL")
+  | "path.new", [s] ->
+      (match pkgpath_new (str_of_arg s) with
+       | Some p ->
+           let re x = match pkgpath_new x with Some q -> pkgpath_eqb q p | None -> false in
+           "OK:" ^ show_pp p ^ "|" ^ bool_obs (re p.pp_short) ^ "|" ^ bool_obs (re p.pp_full)
+       | None -> "E")
+  | "dep.new", [s] ->
+      (match depend_new (str_of_arg s) with
+       | Val d -> "OK:" ^ arg_of_str d.dep_pattern.ptext ^ "|" ^ show_pp d.dep_path ^ "|T"
+       | Fail DInvalid -> "E:Invalid" | Fail DPattern -> "E:Pattern" | Fail DPkgPath -> "E:PkgPath"
+       | Panic _ -> "PANIC" | OutOfFuel -> "FUEL")
+  | "scan.read", [s; k] ->
+      (match scan_read (str_of_arg s) (k <> "N") with
+       | None -> "E"
+       | Some rs ->
+           "OK:" ^ String.concat "#" (List.map (fun r ->
+             arg_of_str r.sr_pkgname ^ "|" ^ (match r.sr_location with None -> "N" | Some p -> show_comps p.pp_short)
+             ^ "|" ^ String.concat ";" (List.map (fun d -> arg_of_str d.dep_pattern.ptext ^ ":" ^ show_comps d.dep_path.pp_short) r.sr_all_depends)
+             ^ "|" ^ String.concat ";" (List.map show_opt_s r.sr_scalars)
+             ^ "|" ^ String.concat ";" (List.map arg_of_str r.sr_scan_depends)
+             ^ "|" ^ String.concat ";" (List.map arg_of_str r.sr_multi_version)) rs))
   | _ -> "UNKNOWN-OP"
 
 let () =
